@@ -65,6 +65,9 @@ def build(cfg, model=None, loss=None, samplers=None, scheduler=None, seeds="spec
         kw["samplers"] = samplers
     elif c.get("rl"):
         kw["scheduler"] = make_scheduler(c, seeds)
+    elif c.get("scheduler_kind") == "batch_id_rr":
+        from harness.stubs import BatchIdRoundRobin
+        kw["scheduler"] = BatchIdRoundRobin(make_samplers(c, seeds))
     else:
         kw["samplers"] = make_samplers(c, seeds)
     b_arg = np.array([sp["lo"], sp["hi"]]) if c.get("as_array") else [sp["lo"], sp["hi"]]
